@@ -18,6 +18,7 @@ import (
 	"sort"
 	"strconv"
 	"strings"
+	"time"
 
 	"github.com/tailscale/setec/audit"
 	setec "github.com/tailscale/setec/client/setec"
@@ -312,6 +313,7 @@ type c05Env struct {
 	down             *downAEAD     // fails every call while the key service is "down"
 	real             tink.AEAD     // the key itself (for the harness's own probes)
 	outage           bool          // keep the key service down between opens
+	hung             string        // a call on the handle never returned (which one): nothing more can be asked of it
 	d                *db.DB
 	aw               *audit.Writer
 	super            db.Caller
@@ -377,6 +379,7 @@ type c05StepObs struct {
 	ResClass uint64    `json:"res_class"` // 0 success, 1 not found, 2 other error
 	Live     []secDump `json:"served"`    // the state the handle serves afterwards
 	Files    []string  `json:"files"`     // names in the state directory
+	Hung     string    `json:"hung,omitempty"`
 }
 
 func fileMode(path string) uint64 {
@@ -398,7 +401,7 @@ func (e *c05Env) step(m *c05Markers, st DBStep) c05StepObs {
 			fatal("hide state dir: %v", rerr)
 		}
 	}
-	func() {
+	returned := bounded(func() {
 		defer func() {
 			if p := recover(); p != nil {
 				err = fmt.Errorf("PANIC: %v", p)
@@ -424,11 +427,16 @@ func (e *c05Env) step(m *c05Markers, st DBStep) c05StepObs {
 		case "list":
 			_, err = e.d.List(e.super)
 		}
-	}()
+	})
 	if st.SaveFail {
 		if rerr := os.Rename(hidden, e.state); rerr != nil {
 			fatal("restore state dir: %v", rerr)
 		}
+	}
+	if !returned {
+		e.hung = sprintf("the call (%s %s) did not return within %s", st.Kind, st.NameQ, dbCallTimeout)
+		o.Hung, o.Res, o.ResClass = e.hung, "other", 2
+		return o
 	}
 	o.Res = classify(err)
 	switch o.Res {
@@ -440,7 +448,12 @@ func (e *c05Env) step(m *c05Markers, st DBStep) c05StepObs {
 		o.ResClass = 2
 	}
 	o.KEK = e.kek.count() - k0
-	o.Live = dumpTok(e.d, e.super, m.token)
+	if !bounded(func() { o.Live = dumpTok(e.d, e.super, m.token) }) {
+		e.hung = sprintf("after the call (%s %s, result class %d) returned, listing what the handle serves did not return within %s - a lock was kept", st.Kind, st.NameQ, o.ResClass, dbCallTimeout)
+		o.Hung = e.hung
+		o.Live = []secDump{{Name: []byte("<<no answer>>")}}
+		return o
+	}
 	o.Files = listDir(e.state)
 	bs, _ := os.ReadFile(e.path)
 	o.S = probeFile(bs, e.real, m.token)
@@ -573,13 +586,17 @@ func runC05History(work string, idx int, mseed uint64, outage bool, ops []DBStep
 		last = o.S.Doc
 	}
 	if r == nil {
-		for _, st := range in.Ops {
+		for i, st := range in.Ops {
 			do(st)
+			if env.hung != "" {
+				in.Ops = in.Ops[:i+1] // nothing more can be asked of this handle
+				break
+			}
 		}
 	} else {
 		long := length > 24
 		prev := ""
-		for len(in.Ops) < length {
+		for len(in.Ops) < length && env.hung == "" {
 			st := genC05Step(r, m, last, prev, long)
 			if len(in.Ops) == length-2 && !long {
 				st = DBStep{Kind: "reopen"} // the final file is written by a reopened handle
@@ -613,6 +630,12 @@ func runC05History(work string, idx int, mseed uint64, outage bool, ops []DBStep
 	}
 	rec := Record{Kind: "hist", Input: in, Obs: obs, Key: fmt.Sprintf("%d:%v:%s", mseed, outage, kb), Coq: coqHist(m, in.Ops, obs),
 		Nontrivial: saves >= 3, Tags: append(sortedKeys(tags), "hist")}
+	if env.hung != "" {
+		// a deadlocked handle: a runtime fact, reported by itself with the history as replay
+		rec.Coq = ""
+		rec.Tags = append(rec.Tags, "hist:hung")
+		rec.Direct = &DirectVerdict{OK: false, What: sprintf("step %d: %s - the database handle is deadlocked, later calls do not succeed", len(in.Ops)-1, env.hung)}
+	}
 	return rec, env, last
 }
 
@@ -1193,6 +1216,27 @@ func modeRecords(work string) []Record {
 	return recs
 }
 
+var c05Hung int // histories of this run that ended in a deadlocked handle
+
+// scenarioBounded runs a whole scenario that calls into database handles; if it has not
+// returned after d (they take a second or two) it is given up - a call never returned - and a
+// direct verdict is reported in its place (the goroutine is left behind).
+func scenarioBounded(name string, in C05Input, d time.Duration, f func() []Record) []Record {
+	var recs []Record
+	done := make(chan struct{})
+	go func() {
+		defer close(done)
+		recs = f()
+	}()
+	select {
+	case <-done:
+		return recs
+	case <-time.After(d):
+		return []Record{{Kind: name, Input: in, Key: name + ":did-not-finish", Tags: []string{name + ":hung"},
+			Direct: &DirectVerdict{OK: false, What: sprintf("the %s scenario did not finish within %s: a call on a database handle never returned", name, d)}}}
+	}
+}
+
 func runC05(o Opts) {
 	out := NewOut(o.Out)
 	defer out.Close()
@@ -1216,7 +1260,10 @@ func runC05(o Opts) {
 				}
 			case "tamper":
 				rec, env, last := runC05History(work, i, in.MSeed, in.Outage, in.Ops, nil, 0)
-				if env != nil {
+				if env != nil && env.hung != "" {
+					out.Emit(rec)
+					env.close()
+				} else if env != nil {
 					hin := rec.Input.(C05Input)
 					last = severalSaves(env, in.MSeed, last)
 					only := in
@@ -1253,7 +1300,9 @@ func runC05(o Opts) {
 		out.Emit(rec)
 		idx++
 	}
-	out.Emit(keysRecord(work))
+	for _, kr := range scenarioBounded("keys", C05Input{Mode: "keys"}, 20*time.Second, func() []Record { return []Record{keysRecord(work)} }) {
+		out.Emit(kr)
+	}
 	// the backup task (two schedules) and the long session
 	var bgSelf []Record
 	for k := uint64(0); k < 2; k++ {
@@ -1269,15 +1318,16 @@ func runC05(o Opts) {
 		if thorough {
 			cycles = 3000
 		}
-		lr := longRecord(work, cycles)
-		lr.ID = out.n
-		out.Emit(lr)
-		if lr.Coq != "" {
-			bgSelf = append(bgSelf, lr)
+		for _, lr := range scenarioBounded("long", C05Input{Mode: "long", MSeed: uint64(cycles)}, 90*time.Second, func() []Record { return []Record{longRecord(work, cycles)} }) {
+			lr.ID = out.n
+			out.Emit(lr)
+			if lr.Coq != "" {
+				bgSelf = append(bgSelf, lr)
+			}
 		}
 	}
 	var selfSrc []Record
-	for _, r := range modeRecords(work) {
+	for _, r := range scenarioBounded("mode", C05Input{Mode: "mode"}, 60*time.Second, func() []Record { return modeRecords(work) }) {
 		r.ID = out.n
 		out.Emit(r)
 		if r.Coq != "" && strings.Contains(r.Coq, "FCacheFile") {
@@ -1304,13 +1354,26 @@ func runC05(o Opts) {
 		if env == nil {
 			continue
 		}
+		if env.hung != "" {
+			env.close()
+			c05Hung++
+			if c05Hung >= 4 {
+				break // every further history would cost its time-outs and say the same
+			}
+			continue
+		}
 		if histSelf == nil && i >= 2 && rec.Coq != "" && strings.Contains(rec.Coq, "HRe") && strings.Contains(rec.Coq, "OPut") {
 			c := rec
 			histSelf = &c
 		}
 		if i < nt {
-			last = severalSaves(env, mseed, last)
-			for _, tr := range runOpens(work, r, env, genMarkers(mseed), rec.Input.(C05Input), last, thorough, nil) {
+			oin := rec.Input.(C05Input)
+			oin.Mode = "tamper"
+			opens := scenarioBounded("opens", oin, 5*time.Minute, func() []Record {
+				last = severalSaves(env, mseed, last)
+				return runOpens(work, r, env, genMarkers(mseed), rec.Input.(C05Input), last, thorough, nil)
+			})
+			for _, tr := range opens {
 				tr.ID = out.n
 				out.Emit(tr)
 				if tampSelf == nil && len(last) > 0 && strings.Contains(tr.Coq, "At AT None") {
